@@ -280,6 +280,13 @@ def main(cli_argv=None, return_args=False):
 
         return args if return_args else ground_truth(args, truth_file)
     elif command == "sync_properties":
+        if len(args.input_params) != len(args.output_params):
+            _parser.error(
+                "--input-param and --output-param must be given the same number of"
+                " times. Got: {} and {}".format(
+                    len(args.input_params), len(args.output_params)
+                )
+            )
         for fname in "input_filename", "output_filename":
             if path.isfile(getattr(args, fname)):
                 setattr(
